@@ -42,6 +42,7 @@ func (p c07) Regen(tier string, c *Case, tape []uint32) *Case {
 func (c07) build(src *gen.Source) *Case {
 	o := gen.FullOpts()
 	o.MaxDepth = 1 + src.Intn(3)
+	o.HDMultiLine = src.Chance(1, 3) // expansions that span lines inside here-document bodies
 	c := &Case{Kind: "stream", Reader: gosim.ReaderPlan{Kind: "scanner", FaultAt: -1}}
 	switch src.Intn(9) {
 	case 0, 1:
